@@ -4,7 +4,7 @@ SPEC = {
     "coq_targets": ["theories/StdPath/Props_C11.vo", "theories/StdPath/Cases_C11.vo", "theories/Common/AesCmac.vo"],
     "props": "theories/StdPath/Props_C11.v",
     "harness": [{"bin": "h_path_routing", "n": {"quick": 200, "thorough": 3000}, "known_bits": {}}],
-    "rule": "step sequences (ingress from outside / from inside, egress, try_reverse) with NoValidation, HopMacValidator (three keys) and two custom validators on: every segment shape with <= 3 hops per segment (empty segments anywhere) x pointer values (quick: CurrHF up to the hop count and 63, CurrINF in {0, last valid, first invalid, 3}; thorough: all 64 x 4), directed wrap-around shapes (> 64 hop fields, pointer 63), authentic paths for every shape of 2..3 hops per segment x every combination of construction directions walked forward, reversed (at the end or after an ingress in the middle) and walked back with the key of each AS, every single-bit flip (thorough: also double) of an authentic path walked until rejected, random sequences on random paths; the model runs the Gallina AES-128-CMAC; distinct by full case text",
+    "rule": "step sequences (ingress from outside / from inside, egress, try_reverse) with NoValidation, HopMacValidator (three keys) and two custom validators on: every segment shape with <= 3 hops per segment (empty segments anywhere) x pointer values (quick: CurrHF up to the hop count and 63, CurrINF in {0, last valid, first invalid, 3}; thorough: all 64 x 4), directed wrap-around shapes (> 64 hop fields, pointer 63), authentic paths for every shape of 2..3 hops per segment x every combination of construction directions walked forward, reversed (at the end or after an ingress in the middle) and walked back with the key of each AS, every single-bit flip (thorough: also double) of an authentic path walked until rejected, random sequences on random paths; one-hop paths (set_second_hop on view and model, first-hop ExpTime 0/1/63/255 and random, SegID advanced or not, zeroed / pre-dirtied second-hop slot) whose second hop must carry the specification MAC; the model runs the Gallina AES-128-CMAC; distinct by full case text",
     "assumptions": ["a byte is a number below 256 (bytes_ok)",
                     "tamper detection is stated as a change of the MAC input at the owning AS plus the instance premise that the MAC of the changed input differs from the carried one (unforgeability of AES-CMAC is not a hypothesis; it is exercised on the real AES-CMAC by the bit-flip cases)"],
 }
